@@ -11,11 +11,16 @@ Definition pop_back {X} (l : list X) : option X * list X :=
 Inductive cmdres (X : Type) := Popped (x : option X) | Len (n : Z) | BadCmd.
 Arguments Popped {X} x. Arguments Len {X} n. Arguments BadCmd {X}.
 
-(* 0 = next, 1 = next_back, 2 = len (ExactSizeIterator) *)
+(* 0 = next, 1 = next_back, 2 = len (ExactSizeIterator), 10 + k = nth(k), 100 + k = nth_back(k) (k < 80):
+   nth(k) discards k items from the front and yields the next one; when fewer than k + 1 remain everything is consumed *)
+Definition nth_front {X} (l : list X) (k : Z) : option X * list X := pop_front (zskipn k l).
+Definition nth_back {X} (l : list X) (k : Z) : option X * list X := pop_back (zfirstn (zlen l - k) l).
 Definition deque_cmd {X} (l : list X) (what : Z) : list X * cmdres X :=
   if what =? 0 then let '(x, t) := pop_front l in (t, Popped x)
   else if what =? 1 then let '(x, t) := pop_back l in (t, Popped x)
   else if what =? 2 then (l, Len (zlen l))
+  else if (10 <=? what) && (what <? 90) then let '(x, t) := nth_front l (what - 10) in (t, Popped x)
+  else if (100 <=? what) && (what <? 180) then let '(x, t) := nth_back l (what - 100) in (t, Popped x)
   else (l, BadCmd).
 
 Definition wrap_rr {X} (r : res (result X)) (k : X -> obs) : obs :=
@@ -52,6 +57,25 @@ Fixpoint nested_ro (mk : Z -> res (list expr)) (lo hi : Z) (inners : list (list 
   | who :: what :: t =>
     if who <? 0 then
       if what =? 2 then OZ (hi - lo) :: nested_ro mk lo hi inners t
+      else if (10 <=? what) && (what <? 90) then
+        (* (lo..hi).map(view).nth(k): the range skips k indices *)
+        let k := what - 10 in
+        if lo + k <? hi then
+          match mk (lo + k) with
+          | Val v => OSome (OZ (zlen inners)) :: nested_ro mk (lo + k + 1) hi (inners ++ [v]) t
+          | Panic w => [OPanic w]
+          | UB w => [OUB w]
+          end
+        else ONone :: nested_ro mk hi hi inners t
+      else if (100 <=? what) && (what <? 180) then
+        let k := what - 100 in
+        if lo <? hi - k then
+          match mk (hi - 1 - k) with
+          | Val v => OSome (OZ (zlen inners)) :: nested_ro mk lo (hi - 1 - k) (inners ++ [v]) t
+          | Panic w => [OPanic w]
+          | UB w => [OUB w]
+          end
+        else ONone :: nested_ro mk lo lo inners t
       else if (what =? 0) || (what =? 1) then
         if lo <? hi then
           match mk (if what =? 0 then lo else hi - 1) with
